@@ -135,12 +135,14 @@ def check(recipe) -> list[Fail]:
     cls = ml.Molecule if recipe.get("cls", "Molecule") == "Molecule" else ml.Structure
     has_q = cls is ml.Molecule
     start = recipe["start"]
+    src_ = None
     if start == "empty":
         mol = cls()
     elif start == "recipe":
         mol = chem.build_molecule(recipe["mol"], cls)
     elif start == "clone":
-        mol = cls(chem.build_molecule(recipe["mol"], cls))
+        src_ = chem.build_molecule(recipe["mol"], cls)
+        mol = cls(src_)
     elif start.startswith("file:"):
         mol = cls.load_mol2(getattr(ml.files, start[5:]))
         if recipe.get("clone_file"):
@@ -315,6 +317,22 @@ def check(recipe) -> list[Fail]:
                     return [Fail("add_implicit_hydrogens:new-atom-not-a-singly-bonded-H", f"step {step}: {h!r} bonds={len(bs)}")]
                 model.add(h, None, None)
                 model.bonds.append(frozenset((id(h), id(bs[0] % h))))
+        elif name == "set_charge":
+            # a partial charge assigned in place through the array the molecule hands out
+            if n == 0 or not has_q:
+                continue
+            mol.atomic_charges[op[1] % n] = op[2]
+            model.charge[id(model.atoms[op[1] % n])] = float(np.float32(op[2])) if mol.atomic_charges.dtype == np.float32 else float(op[2])
+        elif name == "scribble_clone":
+            # somebody else's molecules - the one this molecule was cloned from, and a clone taken now - are overwritten in place:
+            # this molecule's atoms keep what THEY were given
+            others = [cls(mol)] + ([src_] if src_ is not None else [])
+            for o_ in others:
+                if o_.n_atoms:
+                    o_.coords[...] = -55.5
+                    if has_q:
+                        o_.atomic_charges[...] = 7.5
+            del others
         elif name == "sub_del_bond":
             if n == 0:
                 continue
@@ -393,6 +411,8 @@ def _ops(maxlen):
         st.tuples(st.just("view_reuse"), _i, st.floats(-3, 3, width=32)).map(list),
         st.tuples(st.just("bond_two_foreign"), _i, _i).map(list),
         st.tuples(st.just("self_bond"), _i).map(list),
+        st.tuples(st.just("set_charge"), _i, st.floats(-2, 2, width=32)).map(list),
+        st.just(["scribble_clone"]),
         st.tuples(st.just("sub_del_bond"), st.lists(_i, min_size=2, max_size=5), _i).map(list),
     )
     return st.lists(op, min_size=1, max_size=maxlen)
@@ -426,6 +446,7 @@ _ALPHA = [
     ["append_bond_readopt", 0, 0, True], ["append_bond_steal", 1, 1, False],
     ["sub_del_bond", [0, 1, 2], 0],
     ["del_bond", 0], ["remove_substituent", 0, True], ["remove_substituent", 0, False], ["add_implicit_hydrogens"], ["sub_write", [0, 2], 1.5], ["view_reuse", 0, 0.5], ["bond_two_foreign", 4, 1], ["self_bond", 0],
+    ["set_charge", 1, 0.75], ["scribble_clone"],
 ]
 
 
@@ -446,5 +467,5 @@ LEGS = [
     Leg("hist", check, classify, strategy=strat, n={"quick": 4000, "thorough": 40000}, shards={"quick": 16, "thorough": 32},
         rule="Hypothesis-generated edit histories (<=40 ops over add_atom / new_atom / del_atom by object|index|label|Element / connect / append_bond(s) / extend_bonds incl. foreign atoms / del_bond / remove_substituent / add_implicit_hydrogens / substructure write / re-use of a kept substructure view after later edits) on Molecule and Structure, started from empty, generated, cloned and bundled-mol2 molecules; " + _NT),
     Leg("short", check, classify, enumerate=enum_short, exhaustive=True, shards={"quick": 16, "thorough": 64},
-        rule="ALL op sequences of length <=3 (quick) / <=4 (thorough) over an 21-letter op alphabet from a 3-atom start x {Molecule, Structure} x {built, cloned}; " + _NT),
+        rule="ALL op sequences of length <=3 (quick) / <=4 (thorough) over a 26-letter op alphabet from a 3-atom start x {Molecule, Structure} x {built, cloned}; " + _NT),
 ]
